@@ -234,6 +234,9 @@ fn parse(text: &str, allow_substvar: bool) -> Parse {
                     self.error("Expected version".to_string());
                 }
 
+                // "(>= 1.0 )": blanks may precede the closing parenthesis
+                self.skip_ws();
+
                 if self.current() == Some(R_PARENS) {
                     self.bump();
                 } else {
